@@ -34,6 +34,7 @@ EXPLANATION = (
 )
 NONTRIVIAL_RULE = "processed at least one event that ran an action or changed the configuration"
 BOUNDS = {
+    "step_agree": "skeletons with parallel states and history (item label); every publicly reachable (configuration, history) pair, every active source, every node as target, reenter in {T,F}: both engines end in the same configuration with the same ordered entry/exit/transition markers, each carrying the triggering event and its payload",
     "resolve_agree": "skeletons with ambiguous keys (CUR8: B.A beside A, custom ids; CUR15: E>D>E, Q>Q, a child named like the machine; CUR9: Z.W beside W); source fixed per item; target = any str of <= L chars that a standard attempt resolves; every configuration/history; both engines must reach the same configuration",
     "engines_seq": "feature machine FM; event sequence of length N (item label) over a 13-letter alphabet, first event fixed per item; 5 guard outcomes symbolic, read lazily",
     "engines_step": "feature machine FM; every non-final legal configuration x recorded history of B in {absent,b1,b2} x context n in [0,3] x one event of the alphabet x guard outcomes",
@@ -550,8 +551,41 @@ def resolve_agree(c0: int, c1: int, c2: int, c3: int, c4: int, c5: int, hsel: in
     return verdict(ok, nontrivial=res[0][1] != res[0][2])
 
 
+def step_agree(c0: int, c1: int, c2: int, c3: int, c4: int, c5: int, hsel: int, srcsel: int, tgt: int, reenter: bool) -> bool:
+    """
+    pre: gate('step_agree', c0=c0, c1=c1, c2=c2, c3=c3, c4=c4, c5=c5, hsel=hsel, srcsel=srcsel, tgt=tgt, reenter=reenter)
+    post: _
+    """
+    from xstate_statemachine.events import Event
+    from xstate_statemachine.models import TransitionDefinition
+
+    from harness import c01 as base
+
+    sk = base._sk()
+    target = base._node_for(tgt)
+    res: List[Any] = []
+    src_id = None
+    for eng in (0, 1):
+        pre = base._prestate(sk, eng, [c0, c1, c2, c3, c4, c5], hsel)
+        if pre is None:
+            return verdict(True, nontrivial=False)
+        interp, active, _watch = pre
+        src = active[pick(srcsel, len(active))]
+        src_id = src.id
+        tr = TransitionDefinition("E", {"target": "#" + target.id, "reenter": True if reenter else False}, source=src)
+        err = base._run_transition(interp, eng, tr, Event("E", {"k": 1}))
+        log = [(k, s_, getattr(e, "type", None), getattr(e, "payload", None) == {"k": 1}) for k, s_, e in interp.__dict__.get("_rec", [])]
+        res.append((err, sorted(n.id for n in interp._active_state_nodes), log, sorted(n.id for n in active)))
+    ok = res[0][:3] == res[1][:3]
+    if not ok:
+        what = "configuration" if res[0][1] != res[1][1] else ("outcome" if res[0][0] != res[1][0] else "ordered entry/exit/transition actions (with their event)")
+        EXPLAIN.append(f"{src_id} -> #{target.id} reenter={bool(reenter)} from {res[0][3]}: the engines differ in the {what}: "
+                       f"sync {res[0][0]} {res[0][1]} {[(k, s_) for k, s_, _t, _p in res[0][2]]} vs async {res[1][0]} {res[1][1]} {[(k, s_) for k, s_, _t, _p in res[1][2]]}")
+    return verdict(ok, nontrivial=res[0][1] != res[0][3])
+
+
 OBLIGATIONS = {"engines_step": engines_step, "pure_history": pure_history, "engines_seq": engines_seq, "pure_seq": pure_seq, "pure_is_pure": pure_is_pure,
-               "resolve_agree": resolve_agree}
+               "resolve_agree": resolve_agree, "step_agree": step_agree}
 PROBES = {
     "engines_seq": [{"b1": True, "e1": 4, "e2": 4}, {"b1": True, "b3": True}],
 }
@@ -573,6 +607,14 @@ def items(tier: str, seed: int) -> List[Dict[str, Any]]:
     # the two engines resolve every target spelling to the same state: skeletons with ambiguous keys
     from vf import skeletons
 
+    for sid in (("CUR3", "CUR4", "CUR7", "CUR13", "CUR16") if quick else ("CUR3", "CUR4", "CUR5", "CUR6", "CUR7", "CUR10", "CUR11", "CUR13", "CUR14", "CUR16")):
+        spec = skeletons.CURATED[sid]
+        from harness import c01 as _b
+
+        n = _b._count_nodes(spec)
+        for t in range(n):
+            out.append({"ob": "step_agree", "params": {"sid": sid, "spec": spec, "tgts": [t, t + 1]}, "timeout": 300 if quick else 900,
+                        "label": f"step_agree[{sid},tgt={t}]"})
     for sid, srcs in (("CUR8", (0, 1, 5, 6)), ("CUR15", (2, 3, 4, 9, 13)), ("CUR9", (0, 1, 8))):
         spec = skeletons.CURATED[sid]
         L = 4 if quick else 6
